@@ -88,7 +88,7 @@ fn module(ctx: Arc<Ctx>) -> RpcModule<Arc<Ctx>> {
 			}
 		}
 		let mut sent = 0u64;
-		if script.first == "stall" {
+		if script.first == "stall" || script.first == "fill" {
 			// saturate the connection (the peer has stopped reading): padded notifications until the queue reports Full
 			let pad = "p".repeat(64 * 1024);
 			for _ in 0..10_000 {
@@ -117,8 +117,25 @@ fn module(ctx: Arc<Ctx>) -> RpcModule<Arc<Ctx>> {
 					Err(_) => break,
 				}
 			}
+			if script.first == "fill" {
+				// really full: a waiting send finds no room for 40 ms (an attempt that times out is not a send and leaves nothing queued)
+				loop {
+					let n = sent + 1;
+					let raw = serde_json::value::to_raw_value(&json!({"n": n, "pad": pad})).unwrap();
+					match sinks[0].send_timeout(SubscriptionMessage::from(raw), Duration::from_millis(40)).await {
+						Ok(()) => {
+							t.ev(json!({"ev": "HSendStart", "k": k, "n": n, "how": 1}));
+							t.ev(json!({"ev": "HSendEnd", "k": k, "n": n, "ok": true}));
+							sent += 1;
+						}
+						Err(_) => break,
+					}
+				}
+			}
 			ctx.stall_full.notify_one();
 			ctx.stall_go.notified().await;
+		}
+		if script.first == "stall" {
 			// the server has reported `stopped`: the sink must say closed, and a send started now must be refused as closed
 			let b = sinks[0].is_closed();
 			t.ev(json!({"ev": "HIsClosed", "k": k, "b": b, "after_stopped": true}));
@@ -237,7 +254,11 @@ pub fn run(nscen: usize, out_path: &str) {
 	let mut outf = crate::common::Out::create(out_path);
 	for sc in 0..nscen {
 		let mut rng = rng_for(sc, 4);
-		let evs = if sc % 15 == 14 { rt.block_on(stall_scenario(sc)) } else { rt.block_on(scenario(&mut rng, sc)) };
+		let evs = match sc % 15 {
+			14 => rt.block_on(stall_scenario(sc)),
+			7 => rt.block_on(pressure_scenario(sc)),
+			_ => rt.block_on(scenario(&mut rng, sc)),
+		};
 		for e in evs {
 			outf.raw(&e);
 		}
@@ -299,6 +320,100 @@ async fn stall_scenario(sc: usize) -> Vec<Value> {
 	if early {
 		tracer.ev(json!({"ev": "EofPeerClosed", "c": 1}));
 	}
+	tracer.ev(json!({"ev": "End"}));
+	tracer.take()
+}
+
+/// A subscribe call that arrives while the connection's outbound side is saturated (the peer has stopped reading, another
+/// subscription of the connection has filled pipe and message buffer): its handler accepts and sends its first notification at
+/// once.  When the peer reads on, the answer that accepts the subscription must still come before that notification.
+async fn pressure_scenario(sc: usize) -> Vec<Value> {
+	let tracer = Tracer::default();
+	let ctx = Arc::new(Ctx { tracer: tracer.clone(), scripts: Mutex::new(HashMap::new()), stall_full: tokio::sync::Notify::new(), stall_go: tokio::sync::Notify::new() });
+	ctx.scripts.lock().insert(1, HScript { first: "fill", ops: vec![], closing: false });
+	ctx.scripts.lock().insert(2, HScript { first: "accept", ops: vec![HOp::Send((sc % 2) as u8), HOp::Send(0)], closing: sc % 4 < 2 });
+	let methods: jsonrpsee_server::Methods = module(ctx.clone()).into();
+	let rig = Rig::with_methods(RigCfg { max_subs: 2, buf_cap: 2, ..Default::default() }, Default::default(), methods);
+	tracer.ev(json!({"ev": "Reset", "sc": sc, "cap": 2, "pressure": true}));
+	let (stop, handle) = jsonrpsee_server::stop_channel();
+	let svc = rig.svc(stop.clone());
+	let Ok(ws) = WsPeer::connect_with_pipe(svc, stop, handle.clone(), &[], 64 * 1024).await else {
+		tracer.ev(json!({"ev": "End"}));
+		return tracer.take();
+	};
+	let WsPeer { mut tx, mut rx, stop: stop_handle, .. } = ws;
+	let mut sub_ids: HashMap<u64, Value> = HashMap::new();
+	tracer.ev(json!({"ev": "SendSub", "k": 1}));
+	let _ = tx.send_text(r#"{"jsonrpc":"2.0","id":101,"method":"sub","params":[1]}"#).await;
+	let _ = tx.flush().await;
+	let mut data = Vec::new();
+	if rx.receive_data(&mut data).await.is_ok() {
+		let v: Value = serde_json::from_slice(&data).unwrap_or(Value::Null);
+		if v.get("result").is_some() {
+			sub_ids.insert(1, v["result"].clone());
+			tracer.ev(json!({"ev": "Recv", "c": 1, "f": {"t": "resp", "k": 1}}));
+		}
+	}
+	// the peer reads nothing more until the outbound side is full; then the second subscribe call goes in
+	let _ = tokio::time::timeout(WAIT, ctx.stall_full.notified()).await;
+	tracer.ev(json!({"ev": "SendSub", "k": 2}));
+	let _ = tx.send_text(r#"{"jsonrpc":"2.0","id":102,"method":"sub","params":[2]}"#).await;
+	let _ = tx.flush().await;
+	// its handler runs into the full buffer; a moment later the peer reads on
+	tokio::time::sleep(Duration::from_millis(30)).await;
+	let t2 = tracer.clone();
+	let reader = tokio::spawn(async move {
+		loop {
+			let mut data = Vec::new();
+			match rx.receive_data(&mut data).await {
+				Ok(_) => {
+					let v: Value = serde_json::from_slice(&data).unwrap_or(Value::Null);
+					let f = if let Some(id) = v["id"].as_u64() {
+						let k = id - 100;
+						if v.get("result").is_some() {
+							sub_ids.insert(k, v["result"].clone());
+							json!({"t": "resp", "k": k})
+						} else {
+							json!({"t": "err", "k": k, "code": v["error"]["code"]})
+						}
+					} else {
+						let sid = &v["params"]["subscription"];
+						let k = sub_ids.iter().find(|(_, s)| *s == sid).map(|(k, _)| *k as i64).unwrap_or(-1);
+						match &v["params"]["result"] {
+							Value::Number(n) => json!({"t": "notif", "k": k, "n": n}),
+							Value::Object(o) if o.contains_key("n") => json!({"t": "notif", "k": k, "n": o["n"]}),
+							_ => json!({"t": "close", "k": k}),
+						}
+					};
+					t2.ev(json!({"ev": "Recv", "c": 1, "f": f}));
+				}
+				Err(_) => {
+					t2.ev(json!({"ev": "Eof", "c": 1}));
+					break;
+				}
+			}
+		}
+	});
+	// the second handler gets through now; then the first one is let go
+	for _ in 0..400 {
+		if tracer.0.lock().iter().any(|e| e["ev"] == "HReturn" && e["k"] == 2) {
+			break;
+		}
+		tokio::time::sleep(Duration::from_millis(5)).await;
+	}
+	ctx.stall_go.notify_one();
+	for _ in 0..400 {
+		if ctx.scripts.lock().is_empty() && tracer.0.lock().iter().filter(|e| e["ev"] == "HReturn").count() == 2 {
+			break;
+		}
+		tokio::time::sleep(Duration::from_millis(5)).await;
+	}
+	tokio::time::sleep(Duration::from_millis(3)).await;
+	tracer.ev(json!({"ev": "Stop", "c": 1}));
+	let _ = handle.stop();
+	drop(stop_handle);
+	let _ = tokio::time::timeout(WAIT, reader).await;
+	drop(tx);
 	tracer.ev(json!({"ev": "End"}));
 	tracer.take()
 }
